@@ -11,7 +11,8 @@ ENTRY = dict(
          "CipherSuite, NegotiatedProtocol, CurveID (VerifCurveID), DidResume, ECHAccepted, ServerName equal on both ends; both "
          "ServerNames equal the SNI parsed from the wire hello ('' if none); ExportKeyingMaterial equal (bytes or refusal) for 5 "
          "seeded random (label, context incl. nil/empty, length 1..255) triples, one of length 255. Coq: CName (server-name model "
-         "on uconn.Extensions) for every successful row, CState (client_run and server_state on the flight parsed from the "
+         "on uconn.Extensions) for every successful row, CState (Complete.client_run10 with the tree's key-selection rule - detected by "
+         "reflection on KeySharePrivateKeys.ExtraEcdhe - and the retained-key shape, and server_state, on the flight parsed from the "
          "server's plaintext messages) for every successful row except TLS 1.2 resumptions. Distinct by (parrot, variant); CName "
          "is non-trivial when an SNI extension is on the wire or the row is a server-name variant.",
     trusted_base=["stock utls server as the peer (verif_server.go scripted server for the compressed-certificate and ALPS rows); verif_c12.go accessors (VerifClientViewOf, VerifCurveID)",
@@ -25,7 +26,7 @@ ENTRY = dict(
     level_text="Proof for every flight shape that client and server feed identical bytes to the transcript hash up to the server "
                "Finished and up to the client Finished (HRR message-hash substitution, compressed certificate as sent, client ALPS "
                "EncryptedExtensions, client certificate), hence equal exporter output for any hash/KDF/exporter; proof for every "
-               "view and flight that a completed client reports the version, suite, group, ALPN and resumption bit carried by the "
+               "view, retained-key shape and flight (before and after the C18 key-share repair) that a completed client reports the version, suite, group, ALPN and resumption bit carried by the "
                "server's messages; proof that the repaired client reports exactly the SNI on the wire (refuted for the code before "
                "fixes/C11-sni-reported-name.diff, F-11). Partial: cryptography is uninterpreted; tied by handshakes against the stock server.",
 )
